@@ -511,6 +511,11 @@ def locate(fn, loc):
         # ("has_call", callee_suffix, min_count): does the function call `...callee_suffix(...)` at least min_count times?
         hits = [n for n in ast.walk(fn) if isinstance(n, ast.Call) and ast.unparse(n.func).endswith(loc[1])]
         return ast.copy_location(ast.Constant(len(hits) >= loc[2]), fn)
+    if kind == "has_identity_test":
+        # ("has_identity_test",): does the function compare objects with `is` / `is not` (other than against None)?
+        hits = [n for n in ast.walk(fn) if isinstance(n, ast.Compare) and any(isinstance(o, (ast.Is, ast.IsNot)) for o in n.ops)
+                and not all(isinstance(c, ast.Constant) and c.value is None for c in n.comparators)]
+        return ast.copy_location(ast.Constant(len(hits) >= 1), fn)
     if kind == "range_arg":
         # ("range_arg", nth): the single argument of the nth `for ... in range(<expr>)`
         hits = [n for n in ast.walk(fn) if isinstance(n, ast.For) and isinstance(n.iter, ast.Call)
